@@ -1,5 +1,6 @@
 import SFV.Driver.Json
 import SFV.Model.IoIR
+import SFV.Model.IoCode
 /-! Driver handler for K8 (`io.*` ops).  JSON encodings (shared with `harness/lib/ioir.py`):
 `Sc` = `{"i": n}` | `{"f": [num, den]}` | `{"c": [[n, d], [n, d]]}`;
 `Val` = `{"sc": Sc}` | `{"str": s}` | `{"lst": [Sc]}` | `{"arr": {"shape": [..], "data": [Sc]}}` |
@@ -47,11 +48,20 @@ def jFace (f : Face) : Json :=
 def asSym (j : Json) : R Sym := do
   let fr ← getArr j "frees"
   pure { pos := ← asFace (← j.getObjVal? "pos"), neg := ← asFace (← j.getObjVal? "neg"),
-         meas := getNatListD j "meas", frees := ← fr.mapM (·.getStr?) }
+         meas := getNatListD j "meas", frees := ← fr.mapM (·.getStr?), val := ← getOpt j "val" asSc }
 
 def jSym (e : Sym) : Json :=
   Json.mkObj [("pos", jFace e.pos), ("neg", jFace e.neg), ("meas", natList e.meas),
-    ("frees", jarr (e.frees.map Json.str))]
+    ("frees", jarr (e.frees.map Json.str)), ("val", optJ jSc e.val)]
+
+def asISym (j : Json) : R ISym := do
+  let ns ← getArr j "names"
+  pure { pos := ← asFace (← j.getObjVal? "pos"), neg := ← asFace (← j.getObjVal? "neg"),
+         names := ← ns.mapM (·.getStr?), val := ← getOpt j "val" asSc }
+
+def jISym (e : ISym) : Json :=
+  Json.mkObj [("pos", jFace e.pos), ("neg", jFace e.neg), ("names", jarr (e.names.map Json.str)),
+    ("val", optJ jSc e.val)]
 
 def asVal (j : Json) : R Val :=
   match j.getObjVal? "sc" with
@@ -65,7 +75,7 @@ def asVal (j : Json) : R Val :=
   | .error _ => match j.getObjVal? "sym" with
   | .ok v => do pure (.sym (← asSym v))
   | .error _ => match j.getObjVal? "rrt" with
-  | .ok v => do pure (.rrt (← asSym v))
+  | .ok v => do pure (.rrt (← asISym v))
   | .error _ => do pure (.pname (← getNat j "pname"))
 
 def jVal : Val → Json
@@ -74,7 +84,7 @@ def jVal : Val → Json
   | .lst l => Json.mkObj [("lst", jScList l)]
   | .arr sh d => Json.mkObj [("arr", Json.mkObj [("shape", natList sh), ("data", jScList d)])]
   | .sym e => Json.mkObj [("sym", jSym e)]
-  | .rrt e => Json.mkObj [("rrt", jSym e)]
+  | .rrt e => Json.mkObj [("rrt", jISym e)]
   | .pname i => Json.mkObj [("pname", jnat i)]
 
 def asKw (j : Json) : R (List (String × Val)) := do
@@ -116,13 +126,13 @@ def asProg (j : Json) : R Prog := do
   let cs ← getArr j "cmds"
   pure { name := ← getStr j "name", n := ← getNat j "n", target := ← getOpt j "target" (·.getStr?),
          shots := ← getOpt j "shots" (·.getNat?), cutoff := ← getOpt j "cutoff" (·.getNat?),
-         tdm := ← getOpt j "tdm" asTdm, cmds := ← cs.mapM asCmd }
+         tdm := ← getOpt j "tdm" asTdm, extra := ← getKw j "extra", cmds := ← cs.mapM asCmd }
 
 def jProg (p : Prog) : Json :=
   Json.mkObj [("name", Json.str p.name), ("n", jnat p.n), ("target", optJ Json.str p.target),
     ("shots", optJ jnat p.shots), ("cutoff", optJ jnat p.cutoff),
     ("tdm", optJ (fun t => Json.mkObj [("N", natList t.N), ("params", jScRows t.params)]) p.tdm),
-    ("cmds", jarr (p.cmds.map jCmd))]
+    ("extra", jKw p.extra), ("cmds", jarr (p.cmds.map jCmd))]
 
 def asBBOp (j : Json) : R BBOp := do
   pure { op := ← getStr j "op", modes := getNatListD j "modes", args := ← getVals j "args",
@@ -138,12 +148,12 @@ def asBB (j : Json) : R BB := do
          shots := ← getOpt j "shots" (·.getNat?), cutoff := ← getOpt j "cutoff" (·.getNat?),
          tdm := ← getOpt j "tdm" (·.getNat?),
          vars := ← (match j.getObjVal? "vars" with | .ok v => asScRows v | .error _ => pure []),
-         ops := ← os.mapM asBBOp }
+         extra := ← getKw j "extra", ops := ← os.mapM asBBOp }
 
 def jBB (b : BB) : Json :=
   Json.mkObj [("name", Json.str b.name), ("modes", natList b.modes), ("target", optJ Json.str b.target),
     ("shots", optJ jnat b.shots), ("cutoff", optJ jnat b.cutoff), ("tdm", optJ jnat b.tdm),
-    ("vars", jScRows b.vars), ("ops", jarr (b.ops.map jBBOp))]
+    ("vars", jScRows b.vars), ("extra", jKw b.extra), ("ops", jarr (b.ops.map jBBOp))]
 
 def asXStmt (j : Json) : R XStmt := do
   let params ← match j.getObjVal? "kw" with
@@ -182,6 +192,30 @@ def res (f : α → Json) : Except Err α → Json
   | .ok a => Json.mkObj [("ok", f a)]
   | .error e => Json.mkObj [("err", Json.str (errStr e))]
 
+/-- the parse table `P` of a request: `"parse": [[string, ISym], …]` -/
+def getParse (j : Json) : R (String → Option ISym) := do
+  let tbl ← match j.getObjVal? "parse" with
+    | .ok (Json.arr a) => a.toList.mapM fun x => do
+        match (← x.getArr?).toList with
+        | [k, v] => do pure ((← k.getStr?), (← asISym v))
+        | _ => throw "parse entry"
+    | _ => pure []
+  pure fun s => (tbl.find? (·.1 = s)).map (·.2)
+
+def jPyArg : PyArg → Json
+  | .lit s => Json.mkObj [("lit", jSc s)]
+  | .piMul c d => Json.mkObj [("pi", jarr [jint c, jnat d])]
+  | .loopIdx i => Json.mkObj [("loop", jnat i)]
+  | .text s => Json.mkObj [("text", Json.str s)]
+  | .other => Json.mkObj [("other", Json.bool true)]
+
+def jCode (c : Code) : Json :=
+  Json.mkObj [("tdmN", optJ natList c.tdmN), ("n", jnat c.n),
+    ("ctx", jarr (c.ctx.map fun r => jarr (r.map jPyArg))),
+    ("lines", jarr (c.lines.map fun l => Json.mkObj [("cls", Json.str l.cls), ("args", jarr (l.args.map jPyArg)),
+      ("select", optJ jVal l.select), ("dark", optJ jVal l.dark), ("dagger", Json.bool l.dagger),
+      ("modes", natList l.modes)]))]
+
 def handler (op : String) (j : Json) : Option (R Json) :=
   match op with
   | "io.toBB" => some do
@@ -192,13 +226,30 @@ def handler (op : String) (j : Json) : Option (R Json) :=
     pure (jBB (reparseBB b))
   | "io.fromBB" => some do
     let b ← asBB (← j.getObjVal? "bb")
-    pure (res jProg (toProgramBB b))
+    pure (res jProg (toProgramBB (← getParse j) b))
   | "io.toXIR" => some do
     let p ← asProg (← j.getObjVal? "prog")
     pure (jXIR (toXIR p))
   | "io.fromXIR" => some do
     let x ← asXIR (← j.getObjVal? "xir")
-    pure (res jProg (toProgramXIR x))
+    pure (res jProg (toProgramXIR (← getParse j) x))
+  | "io.genCode" => some do
+    let p ← asProg (← j.getObjVal? "prog")
+    pure (jCode (genCode p))
+  | "io.evalCode" => some do
+    let p ← asProg (← j.getObjVal? "prog")
+    pure (res jProg (evalCode (genCode p)))
+  | "io.genNum" => some do
+    let s ← asSc (← j.getObjVal? "x")
+    pure (jPyArg (genNum s))
+  | "io.names" => some do
+    -- the index parsers on symbol names: [measuredIndex, ptypeIndex] for each name, and the printed names of `i`
+    let ns ← getArr j "names"
+    let names ← ns.mapM (·.getStr?)
+    let is := getNatListD j "indices"
+    pure (Json.mkObj [
+      ("parsed", jarr (names.map fun n => jarr [optJ jnat (measuredIndex n), optJ jnat (ptypeIndex n)])),
+      ("printed", jarr (is.map fun i => jarr [Json.str (qName i), Json.str (pName i)]))])
   | "io.piString" => some do
     let m ← getInt j "m"
     pure (Json.str (piString m))
